@@ -126,9 +126,9 @@ def _hermite_der(s: float, y0: float, y1: float, dy0: float, dy1: float, dt_seg:
     This function computes the analytical derivative of the cubic
     Hermite interpolation polynomial. It uses the derivatives of
     the Hermite basis functions:
-    - dh00(s) = 6s(s-1) + (1-s)^2*2 - 2(1-s)(1+2s)
+    - dh00(s) = 6s(s-1)
     - dh10(s) = (1-s)^2 + s*2(s-1)
-    - dh01(s) = 6s(1-s) - 2s(3-2s)
+    - dh01(s) = 6s(1-s)
     - dh11(s) = 2s(s-1) + s^2
 
     The derivative formula is:
@@ -140,8 +140,8 @@ def _hermite_der(s: float, y0: float, y1: float, dy0: float, dy1: float, dt_seg:
     All units are in nondimensional units.
     """
     # Analytical derivative of the cubic Hermite polynomial
-    dh00 = 6.0 * s * (s - 1.0) + (1.0 - s) ** 2 * 2.0 - 2.0 * (1.0 - s) * (1.0 + 2.0 * s)
+    dh00 = 6.0 * s * (s - 1.0)
     dh10 = (1.0 - s) ** 2 + s * (2.0 * (s - 1.0))
-    dh01 = 6.0 * s * (1.0 - s) - 2.0 * s * (3.0 - 2.0 * s)
+    dh01 = 6.0 * s * (1.0 - s)
     dh11 = 2.0 * s * (s - 1.0) + s ** 2
     return dh00 * y0 + dh10 * dy0 * dt_seg + dh01 * y1 + dh11 * dy1 * dt_seg
